@@ -32,7 +32,10 @@ CLAIM = dict(
          "int.from_bytes for all naturals; compatibility rule for extra reserved fields / missing version; M2: EVERY "
          "encoding the msgpack format allows for a value (relation Encodes: any integer / length class wide enough, "
          "fixext for its exact sizes, float32) - what an independent conforming writer may emit - is decoded to that "
-         "value, to any depth; M3: the packer's own output is one of them; the format is unambiguous. Tie: "
+         "value, to any depth; the same at the ENVELOPE layer (C02_reencoded_payloads_same_value, "
+         "C02_reencoded_frame_is_read: a frame whose extension payloads - and the payloads nested inside them, to "
+         "any depth - were re-encoded by any conforming writer is decoded to exactly the object); M3: the packer's own "
+         "output is one of them; the format is unambiguous. Tie: "
          "implementation bytes are decoded by the Lean reference reader to the records written; independently encoded "
          "conforming streams (non-minimal msgpack classes, older shapes) are decoded by the implementation; frozen "
          "golden corpus; identifiers re-computed with hashlib.",
